@@ -123,6 +123,18 @@ type Case struct {
 	// files exist is a fact about the filesystem now, not about what the engine has seen before.
 	Steps []Step `json:"steps,omitempty"`
 
+	// Via (above) also takes the less travelled entry points:
+	//   "fill-load"          New().Fill(d).Load(p).Render            (Fill before Load)
+	//   "view"               vuego.View(engine, p, d).Render
+	//   "load-assign-render" Load(p).Assign(fd).Assign(k).Render      (data through Assign, no Fill)
+	//   "assign-renderfile"  New().Assign(fd).Assign(k).RenderFile(p)
+	//   "bare-load"          Load(p).Render                          (no data at all)
+	//   "bare-renderfile"    New().RenderFile(p)                     (no data at all)
+	// In the bare forms fd and the Fill k do not exist; in the Assign forms the values travel as
+	// plain Assign calls whatever FillKind says.
+	// Ctor: "" = vuego.NewFS(fs), "withfs" = vuego.New(vuego.WithFS(fs)).
+	Ctor string `json:"ctor,omitempty"`
+
 	// SameTemplate: the renders of this case (one, or one per "render" step of a history) use
 	// ONE loaded Template object, filled again before each render (tpl.Fill(data).Render), instead
 	// of a fresh Load per render.
@@ -138,6 +150,10 @@ type Case struct {
 	//   "latefail"    the outermost file of the chain additionally ends in a call of an unknown
 	//                 function (after text and successful mustaches): the render fails late
 	//   "missingload" Load of a file that does not exist, Assign + Fill + Render on the result
+	//   "otherpage"   ANOTHER page of the same site (pages/q.vuego: front-matter layout qlay, k, pg,
+	//                 fd with -STALE values; layouts/qlay.vuego) is rendered successfully first,
+	//                 through the same entry point; with BeforeSame on the case's engine - requests
+	//                 for different pages on one shared engine - else on a fresh one
 	// BeforeSame: the failing operation runs on the engine of the case (else on a fresh engine over
 	// the same files; "latefail" always uses a fresh engine because its files differ). If the
 	// case's own chain cannot end, "failwriter"/"shortwriter" additionally push a small
@@ -225,6 +241,8 @@ type openOnly struct{ f fs.FS }
 
 func (o openOnly) Open(name string) (fs.File, error) { return o.f.Open(name) }
 
+const otherPage = "pages/q.vuego"
+
 const staleSource = `---
 layout: zz
 k: k-stale
@@ -243,6 +261,11 @@ func mount(c Case) (fs.FS, []*memfs.FS, []*memfs.FS, map[string]int) {
 		layers[at[f.Path]].Write(f.Path, source(f, false), memfsTime)
 	}
 	layers[at[c.Page.Path]].Write(c.Page.Path, sourceFM(c.Page, true, c.LayoutVia == ""), memfsTime)
+	if c.Before == "otherpage" {
+		up := layers[nonNil[0]]
+		up.Write(otherPage, "---\nlayout: qlay\nk: k-q-STALE\npg: pg-q-STALE\nfd: fd-q-STALE\n---\n<div data-m=\"pages/q\">{{ k }}</div>\n", memfsTime)
+		up.Write("layouts/qlay.vuego", "---\nk: k-qlay-STALE\n---\n<div data-m=\"layouts/qlay\">{{ k }}{{ pg }}<div v-html=\"content\"></div></div>\n", memfsTime)
+	}
 	if c.Overlay != nil {
 		for _, p := range c.Overlay.Stale {
 			l, ok := at[p]
@@ -591,7 +614,13 @@ type engine struct {
 
 func newEngine(c Case) *engine {
 	fsys, mems, byIdx, at := mount(c)
-	return &engine{root: vuego.NewFS(fsys), mems: mems, byIdx: byIdx, at: at}
+	var root vuego.Template
+	if c.Ctor == "withfs" {
+		root = vuego.New(vuego.WithFS(fsys))
+	} else {
+		root = vuego.NewFS(fsys)
+	}
+	return &engine{root: root, mems: mems, byIdx: byIdx, at: at}
 }
 
 func execute(c Case) result {
@@ -667,6 +696,11 @@ func (e *engine) before(c Case) {
 		eng.renderTo(s, ctx, &fw.Capture{}, true)
 	case "latefail":
 		eng.renderTo(s, context.Background(), &fw.Capture{}, true)
+	case "otherpage":
+		o := s
+		o.Page = File{Path: otherPage}
+		o.LayoutVia = ""
+		eng.renderTo(o, context.Background(), &fw.Capture{}, true)
 	case "missingload":
 		_ = run.Safe(func() error {
 			t := eng.root.Load("pages/no-such-page.vuego").Assign("k", "k-assigned-STALE").Fill(map[string]any{"k": "k-fill-STALE", "fd": fdVal + "-STALE", "pg": "pg-STALE"})
@@ -739,7 +773,26 @@ func (e *engine) renderTo(c Case, ctx context.Context, w io.Writer, stale bool) 
 			}
 		}()
 		// no goroutine, no clock: non-termination shows up as an exhausted budget
+		plain := func(t vuego.Template) vuego.Template {
+			t = t.Assign("fd", fdVal)
+			if c.FillK != "" {
+				t = t.Assign("k", c.FillK)
+			}
+			return t
+		}
 		switch {
+		case c.Via == "fill-load":
+			res.err = assign(e.root.New().Fill(fill).Load(c.Page.Path)).Render(ctx, w)
+		case c.Via == "view":
+			res.err = assign(vuego.View(e.root, c.Page.Path, fill)).Render(ctx, w)
+		case c.Via == "load-assign-render":
+			res.err = assign(plain(e.root.Load(c.Page.Path))).Render(ctx, w)
+		case c.Via == "assign-renderfile":
+			res.err = assign(plain(e.root.New())).RenderFile(ctx, w, c.Page.Path)
+		case c.Via == "bare-load":
+			res.err = assign(e.root.Load(c.Page.Path)).Render(ctx, w)
+		case c.Via == "bare-renderfile":
+			res.err = assign(e.root.New()).RenderFile(ctx, w, c.Page.Path)
 		case c.Via == "renderfile" && c.SameTemplate:
 			if e.keep == nil {
 				e.keep = e.root.New()
@@ -874,8 +927,14 @@ func checkOne(c Case) (plan, result, error) {
 	return pl, res, err
 }
 
+// noData reports whether the entry point hands no data to the engine.
+func noData(c Case) bool { return c.Via == "bare-load" || c.Via == "bare-renderfile" }
+
 // judgeAll applies the oracle to the result of one render of c.
 func judgeAll(c Case, res result) (plan, error) {
+	if noData(c) {
+		c.FillK = "" // nothing is handed to the engine
+	}
 	pl := walk(c)
 	err := judge(c, pl, res)
 	if err == nil || c.LayoutVia == "" || c.Page.Layout == "" {
@@ -1064,7 +1123,7 @@ func verify(c Case, chain []File, pageReused bool, out []byte) error {
 		if cells["pg"] != pgVal {
 			return fail("in %s the page's front-matter key pg shows %q, want %q (page front-matter must stay visible)", f.Path, cells["pg"], pgVal)
 		}
-		if cells["fd"] != fdVal {
+		if cells["fd"] != fdVal && !noData(c) {
 			return fail("in %s the Fill key fd shows %q, want %q (page data must stay visible)", f.Path, cells["fd"], fdVal)
 		}
 		if allowed := allowedK(c, chain, i, pageReused); allowed != nil {
@@ -1361,10 +1420,16 @@ func classify(c Case) (bool, []string) {
 			}
 		}
 	}
-	if c.Via == "renderfile" {
+	switch c.Via {
+	case "renderfile":
 		cls = append(cls, "via=RenderFile")
-	} else {
+	case "":
 		cls = append(cls, "via=Load.Fill.Render")
+	default:
+		cls = append(cls, "via="+c.Via)
+	}
+	if c.Ctor == "withfs" {
+		cls = append(cls, "ctor=New(WithFS)")
 	}
 	nt := layouts >= 2 || pl.out == oCycle || pl.ambiguous
 	return nt, cls
@@ -1705,11 +1770,17 @@ func genCase(t *rapid.T) Case {
 	if c.Page.Layout != "" {
 		c.LayoutVia = rapid.SampledFrom([]string{"", "", "", "", "fill", "assign"}).Draw(t, "layout.via")
 	}
+	if c.LayoutVia == "" && rapid.IntRange(0, 2).Draw(t, "via.rare?") == 0 {
+		c.Via = rapid.SampledFrom(rareVias).Draw(t, "via.rare")
+	}
+	if rapid.IntRange(0, 3).Draw(t, "ctor") == 0 {
+		c.Ctor = "withfs"
+	}
 	if rapid.IntRange(0, 3).Draw(t, "before?") == 0 {
 		c.Before = rapid.SampledFrom(beforeKinds).Draw(t, "before")
 		c.BeforeSame = rapid.Bool().Draw(t, "before.same")
 	}
-	if c.LayoutVia == "" && rapid.IntRange(0, 3).Draw(t, "same.template") == 0 {
+	if c.LayoutVia == "" && (c.Via == "" || c.Via == "renderfile") && rapid.IntRange(0, 3).Draw(t, "same.template") == 0 {
 		c.SameTemplate = true
 	}
 	// a history on one engine
@@ -1876,6 +1947,7 @@ func histories(s *stage) {
 			rotateFS(&d, i)
 			rotateFill(&d, i/2)
 			d.SameTemplate = i%2 == 0
+			rotateEntry(&d, i, 2)
 			if i%5 == 3 {
 				d.Before = beforeKinds[(i/5)%len(beforeKinds)]
 				d.BeforeSame = (i/5)%2 == 0
@@ -1972,7 +2044,21 @@ func padded(s *stage) {
 	}
 }
 
-var beforeKinds = []string{"failwriter", "latefail", "shortwriter", "missingload", "failwriter", "cancel"}
+var beforeKinds = []string{"failwriter", "otherpage", "latefail", "shortwriter", "otherpage", "missingload", "failwriter", "cancel", "otherpage"}
+
+var rareVias = []string{"fill-load", "bare-renderfile", "view", "assign-renderfile", "bare-load", "load-assign-render"}
+
+// rotateEntry sends a rotating fraction of the cases (one in `every`) through the less travelled
+// entry points and the other constructor. Cases whose layout name travels through Fill / Assign
+// and cases going through one kept Template object keep the two main entry points.
+func rotateEntry(c *Case, i, every int) {
+	if i%every == 1 && c.LayoutVia == "" && !c.SameTemplate {
+		c.Via = rareVias[(i/every)%len(rareVias)]
+	}
+	if i%5 == 2 {
+		c.Ctor = "withfs"
+	}
+}
 
 // rotateAfterFailure makes a rotating fraction of the cases (one in `every`) start with a failing
 // or aborted operation, and a further fraction go through one kept Template object.
@@ -2117,6 +2203,7 @@ func overlaySplits(s *stage) {
 			rotateFill(&d, i)
 			rotatePad(&d, i)
 			rotateAfterFailure(&d, i, run.Pick(5, 2))
+			rotateEntry(&d, i, 3)
 			if !s.yield(d) {
 				return false
 			}
@@ -2151,6 +2238,7 @@ func longChains(s *stage) {
 					rotateFS(&c, s.n)
 					rotateSpell(&c, s.n)
 					rotateAfterFailure(&c, s.n, 3)
+					rotateEntry(&c, s.n, 3)
 					c.Page.NoBody = "" // keep the long chains fully observable
 					for j := range c.Files {
 						c.Files[j].NoBody = ""
@@ -2218,6 +2306,7 @@ func shapes(s *stage) {
 					rotateFill(&c, i/2)
 					rotatePad(&c, i)
 					rotateAfterFailure(&c, i, run.Pick(5, 2))
+					rotateEntry(&c, i, 3)
 					if !viaDefault && L > 0 {
 						switch i % 6 {
 						case 1:
@@ -2265,6 +2354,7 @@ func allGraphs(s *stage, slots []string) {
 		rotateSpell(&c, i)
 		rotateFill(&c, i/3)
 		rotateAfterFailure(&c, i, run.Pick(8, 2))
+		rotateEntry(&c, i, 4)
 		if run.Thorough() {
 			rotatePad(&c, i) // quick: front-matter sizes are covered by the pad, overlay, shape and random stages
 		}
